@@ -2,6 +2,7 @@ import GroupbyVerif.Lemmas.Ring
 import GroupbyVerif.Lemmas.RingMax
 import GroupbyVerif.Props.C08
 import GroupbyVerif.Generated.Constants
+import GroupbyVerif.LoopBridge.Rolling
 
 /-!
 # C09 — Rolling operations are per-group sliding-window reductions
@@ -247,5 +248,72 @@ theorem source_facts :
 example : rolling .f .sum 2 1
     [⟨0, .num 1, true⟩, ⟨1, .num 5, true⟩, ⟨-1, .num 9, true⟩, ⟨0, .nan, true⟩, ⟨0, .num 7, true⟩, ⟨0, .num 2, true⟩]
     = [some (.num 1), some (.num 5), none, some (.num 1), some (.num 7), some (.num 9)] := by decide
+
+/-! ### the loops of the current source, end to end
+
+`Generated.Loops.rolling_sum_or_mean` / `rolling_shift_or_diff` are regenerated from `groupby_lib/groupby/numba.py` on
+every run; `LoopBridge/Rolling.lean` proves them equal to the ring-buffer models; composed with the window theorems
+above, the statements are about the source as it is now.  The mean's division is an uninterpreted function `divf`
+(IEEE division is outside the model): the cell holds `divf (window sum) (window non-null count)`. -/
+
+theorem cumRows_getElem (codes : List Int) (vals : List Val) (masked : Bool) (msk : List Bool) (i : Nat)
+    (hi : i < codes.length) :
+    (LoopBridge.cumRows codes vals masked msk)[i]? =
+      some ⟨codes.getD i 0, vals.getD i .nan, !(masked && !(msk.getD i true))⟩ := by
+  simp [LoopBridge.cumRows, hi]
+
+/-- the model's output at a selected row of `cumRows`, in the form the source-level theorems use -/
+theorem rolling_sum_mean_at (k : Kind) (op : RollOp) (hop : op = .sum ∨ op = .mean) (w minp : Nat) (hw : 0 < w)
+    (codes : List Int) (vals : List Val) (msk : List Bool) (masked : Bool) (i : Nat) (hi : i < codes.length)
+    (hg : 0 ≤ codes.getD i 0) (hs : (masked && !(msk.getD i true)) = false) :
+    (rolling k op w minp (LoopBridge.cumRows codes vals masked msk))[i]? =
+      some (some (specRollAt k op w minp
+        (selVals ((LoopBridge.cumRows codes vals masked msk).take (i + 1)) (codes.getD i 0)))) := by
+  have hrow := cumRows_getElem codes vals masked msk i hi
+  rcases hop with rfl | rfl
+  · have := rolling_sum_eq_window k w minp hw _ i _ hrow hg (by rw [hs]; rfl)
+    exact this
+  · have := rolling_mean_eq_window k w minp hw _ i _ hrow hg (by rw [hs]; rfl)
+    exact this
+
+/-- **the translated `_rolling_sum_or_mean_1d` computes the sliding-window sum / mean of the source's own rows**: at
+every selected row with a non-null key, the reduction of the non-null values among the last `window` selected rows of
+the same group ending at that row, `null_value` unless at least `min_periods` of them are non-null -/
+theorem source_rolling_sum_mean_eq_window (k : Kind) (divf : Val → Int → Val) (op : RollOp) (hop : op = .sum ∨ op = .mean)
+    (w : Nat) (hw : 0 < w) (minp : Option Nat) (codes : List Int) (chunks : List (List Val)) (msk : List Bool)
+    (masked : Bool) (ng ml : Int) (nullv : Val) (hlen : codes.length = chunks.flatten.length)
+    (hwf : ∀ v ∈ chunks.flatten, LoopBridge.NumOrNull k v) (hnv : LoopBridge.NumOrNull k nullv)
+    (hnull : nullv = nullValue k) (i : Nat) (hi : i < codes.length) (hg : 0 ≤ codes.getD i 0)
+    (hs : (masked && !(msk.getD i true)) = false) :
+    (Generated.Loops.rolling_sum_or_mean k divf codes.length (arrOf codes 0) chunks ng w minp.isSome (minp.getD 0)
+      masked ml (arrOf msk true) nullv (decide (op = .mean))).1 (i : Int) = LoopBridge.cellVal divf nullv
+      (specRollAt k op w (minp.getD w)
+        (selVals ((LoopBridge.cumRows codes chunks.flatten masked msk).take (i + 1)) (codes.getD i 0))) := by
+  have h := (LoopBridge.rolling_sum_or_mean_eq k divf op hop w hw minp codes chunks msk masked ng ml nullv hlen hwf hnv
+    hnull).2 i hi
+  have hspec := rolling_sum_mean_at k op hop w (minp.getD w) hw codes chunks.flatten msk masked i hi hg hs
+  rw [h, LoopBridge.cellAt, hspec]
+
+/-- **the translated `_rolling_shift_or_diff_1d`** (float view): the value `window` selected group-rows earlier, resp.
+the difference to it -/
+theorem source_rolling_shift_diff_eq_window (op : RollOp) (hop : op = .shift ∨ op = .diff) (w : Nat) (hw : 0 < w)
+    (codes : List Int) (chunks : List (List Val)) (msk : List Bool) (masked : Bool) (ng ml : Int)
+    (hlen : codes.length = chunks.flatten.length) (i : Nat) (hi : i < codes.length) (hg : 0 ≤ codes.getD i 0)
+    (hs : (masked && !(msk.getD i true)) = false) :
+    (Generated.Loops.rolling_shift_or_diff .f codes.length (arrOf codes 0) chunks ng w masked ml (arrOf msk true)
+      (nullValue .f) (decide (op = .shift))).1 (i : Int) = LoopBridge.cellVal (fun a _ => a) (nullValue .f)
+      (specRollAt .f op w 0
+        (selVals ((LoopBridge.cumRows codes chunks.flatten masked msk).take (i + 1)) (codes.getD i 0))) := by
+  have h := (LoopBridge.rolling_shift_or_diff_eq .f op hop w hw 0 codes chunks msk masked ng ml hlen
+    (fun _ _ _ => rfl)).2 i hi
+  have hrow := cumRows_getElem codes chunks.flatten masked msk i hi
+  have hspec := rolling_shift_diff_eq_window op hop w 0 hw _ i _ hrow hg (by rw [hs]; rfl)
+  rw [h, LoopBridge.cellAt, hspec]
+
+/-- non-vacuity: rolling sum, window 2, two groups, a NaN, a null key, two chunks -/
+example :
+    let r := Generated.Loops.rolling_sum_or_mean .f (fun a _ => a) 6 (arrOf [0, 1, 0, -1, 0, 1] 0)
+      [[.num 1, .num 10, .nan], [.num 7, .num 4, .num 20]] 2 2 true 1 false 0 (arrOf [] true) .nan false
+    ((List.range 6).map fun (j : Nat) => r.1 (j : Int)) = [.num 1, .num 10, .num 1, .nan, .num 4, .num 30] := by decide
 
 end GV.C09
